@@ -470,6 +470,12 @@ static Space make_space(const std::string& id) {
     if (id == "c16" || id == "c12x") {  // misuse operations from every state
       for (int r = 0; r < 2; r++) { S.ops.push_back(opSel(r, "nosuch")); S.ops.push_back(opInit(r, "c", "no_such_solution")); S.ops.push_back(opInit(r, "a", "euler_1dd")); }
     }
+  } else if (id == "c12v") {
+    // three handles, two solution types that own vector parameters (heap-allocated per instance): isolation of vectors, re-init resets them
+    S.solutions = {"radiation_integrated_intensity", "cp_normal"}; S.key_last = false;
+    for (const char* h : {"a", "b", "c"}) { for (const char* sol : {"radiation_integrated_intensity", "cp_normal"}) { if (std::string(h) == "c" && std::string(sol) == "cp_normal") continue; S.ops.push_back(opInit(0, h, sol)); } S.ops.push_back(opSel(0, h)); }
+    S.ops.push_back(opSetVec(0, "vec_mean", 3)); S.ops.push_back(opSetVec(0, "vec_data", 2)); S.ops.push_back(opSet(0, "sigma", 2.5L)); S.ops.push_back(opSet(0, "no_gauss", 3.0L));
+    S.ops.push_back(opEval(0, "posterior_mean", "", 0)); S.ops.push_back(opEval(0, "source_u", "S", 0)); S.ops.push_back(opGetVec(0, "vec_mean")); S.ops.push_back(mk(INITPARAM, 0));
   } else if (id == "c11") {
     std::string sol = g_solution; S.solutions = {sol}; defaults_for(sol); const Sol& d = DEFAULTS[0][sol];
     S.prefix = {opInit(0, "s", sol)};
